@@ -40,7 +40,7 @@ def make_dataset(axes, extra=(), with_coords=True, facedim=None, nfaces=0):
         ds = xr.Dataset(coords=coords)
     else:
         # a dataset that knows the dimensions only through a data variable
-        ds = xr.Dataset({"_shape": (tuple(sizes), np.zeros(tuple(sizes.values())))})
+        ds = xr.Dataset({"_len_" + d: ((d,), np.zeros(n)) for d, n in sizes.items()})
         if facedim is not None:
             ds = ds.assign_coords({facedim: (facedim, np.arange(nfaces))})
     return ds
